@@ -504,12 +504,14 @@ class C11(Check):
         tasks = [(z, zone_range(z, quick), 7) for z in zones]
         # the same conversions when the text was converted before for a dataset in another zone (one process, two loads)
         tasks += [(z, zone_range(z, quick), 7, EARLIER_ZONE) for z in (zones[:10] if quick else zones[:40]) if z != EARLIER_ZONE]
-        with mp.get_context('fork').Pool(16) as pool:
-            for exp in pool.imap_unordered(_tz_task, tasks):
+        from vf.framework import run_tasks
+        lost = lambda t, why: self.harness_errors.append('zone %s: no result: %s' % (t[0], why))
+        if True:
+            for exp in run_tasks(_tz_task, tasks, 16, lost, timeout_s=900 if quick else 3600):
                 self.absorb(exp, need_paths=1)
         tasks2 = [(z, w) for z in zones[:10] for w in transition_windows(z, quick)]
-        with mp.get_context('fork').Pool(16) as pool:
-            for exp in pool.imap_unordered(_tz2_task, tasks2):
+        if True:
+            for exp in run_tasks(_tz2_task, tasks2, 16, lost, timeout_s=900 if quick else 3600):
                 self.absorb(exp, need_paths=1)
         self.bounds['earlier conversion'] = 'the first %d zones again after the same text was converted for %s in the same process' % (10 if quick else 40, EARLIER_ZONE)
         self.bounds['two rows'] = '%d windows of +-5000 s around zone transitions, second row 1..7200 s later' % len(tasks2)
